@@ -25,7 +25,7 @@ static FILE* vfopen(const char* n, const char* m);
 LongWord ErrorCount, WarnCount;            /* asmerr.c is not linked: the counters live here */
 #define NP 3
 LongWord in_err[NP], in_warn[NP];
-unsigned char in_repass[NP], in_codeoutput, in_sharemode, in_macpro, in_macro, in_quiet, in_gef;
+unsigned char in_repass[NP], in_codeoutput, in_sharemode, in_macpro, in_macro, in_quiet, in_gef, in_errpath;
 static int passes_run;
 static unsigned sum_err = 0xEEEEEEEE, sum_warn = 0xEEEEEEEE; static int sum_seen;
 
@@ -61,7 +61,8 @@ char* GetFromListOutList(void) { return empty; }
 char* GetFromShareOutList(void) { return empty; }
 char* getmessage(int n) { (void)n; return empty; }
 void OpenWithStandard(FILE** ppFile, char* Path) { (void)Path; *ppFile = (FILE*)(void*)&passes_run; }
-void CloseIfOpen(FILE** f) { *f = NULL; }
+static int errlog_closed;
+void CloseIfOpen(FILE** f) { if (f == &ErrorFile) errlog_closed++; *f = NULL; }
 int as_snprintf(char* pDest, size_t DestSize, const char* pFormat, ...)
 {
   va_list ap;
@@ -110,13 +111,14 @@ void harness(void)
 {
   int p, last, k;
   LOADA(in_err, NP); LOADA(in_warn, NP); LOADA(in_repass, NP);
-  LOAD(in_codeoutput); LOAD(in_sharemode); LOAD(in_macpro); LOAD(in_macro); LOAD(in_quiet); LOAD(in_gef);
+  LOAD(in_codeoutput); LOAD(in_sharemode); LOAD(in_macpro); LOAD(in_macro); LOAD(in_quiet); LOAD(in_gef); LOAD(in_errpath);
   ASSUME(in_codeoutput <= 1 && in_sharemode <= 3 && in_macpro <= 1 && in_macro <= 1 && in_quiet <= 1);
   /* bound: at most NP passes -- the last modelled pass does not ask for another one */
   ASSUME(in_err[NP - 1] != 0 || !(in_repass[NP - 1] & 1));
 
   SourceFile = n_src; OutName = n_out; ErrorName = n_err; LstName = n_lst; ShareName = n_share; MacProName = n_macpro; MacroName = n_macro;
-  ErrorPath = n_errpath;                   /* -E given: the per-file log handling is not the subject */
+  ErrorPath = n_errpath;
+  n_errpath[0] = (in_errpath & 1) ? 'x' : 0;   /* -E <file> given (one log shared by all sources of the invocation) or not (one log per source) */
   CodeOutput = in_codeoutput; ShareMode = in_sharemode; MacProOutput = in_macpro; MacroOutput = in_macro; QuietMode = in_quiet;
   ListMode = 0; ListMask = 0; DebugMode = DebugNone; MakeDebug = False; MakeUseList = MakeCrossList = MakeSectionList = MakeIncludeList = False;
   GlobErrFlag = in_gef & 1;               /* an earlier file of the same invocation may already have failed */
@@ -130,6 +132,8 @@ void harness(void)
   CHECK(passes_run == last + 1, "the pass loop repeats exactly while the pass had no errors and requested a repass");
   CHECK((GlobErrFlag != 0) == ((in_gef & 1) || in_err[last] != 0), "the invocation is marked failed exactly when this file's final pass reported errors or an earlier file had failed");
   if ((in_gef & 1) && in_err[last] == 0) WITNESS("clean file after a failed one");
+  if (in_errpath & 1) { CHECK(errlog_closed == 0, "-E <file>: the shared error log stays open across sources (closing it makes the next message truncate it)"); WITNESS("shared error log"); }
+  else CHECK(errlog_closed >= 1, "without -E <file> the per-source error log is closed at the end of the source");
   if (in_codeoutput)
     CHECK(ex_out == (in_err[last] == 0), "a code file exists exactly when no error was reported");
   if (in_err[last] != 0)
